@@ -156,6 +156,17 @@ func nilUnderTestedError(f *ssa.Function) (bad []RetLeaf, n int) {
 			continue
 		}
 		if lf.GuardedBy(func(g Guard) bool { return !g.Derived && gNil(g, true, isCallErr) }) {
+			// the end of a stream is not a failure: the error was found
+			// to be io.EOF on this path
+			if lf.GuardedBy(func(g Guard) bool {
+				b, ok := g.Cond.(*ssa.BinOp)
+				if !ok || (b.Op == token.EQL) != g.Branch || (b.Op != token.EQL && b.Op != token.NEQ) {
+					return false
+				}
+				return isGlobalLoad(b.Y, "EOF") || isGlobalLoad(b.X, "EOF")
+			}) {
+				continue
+			}
 			bad = append(bad, lf)
 		}
 	}
@@ -797,4 +808,353 @@ func r019(c *Ctx, r *R) {
 	for _, p := range puts {
 		r.Check(mustPass(p.Outer.Block(), keyTested) || viaHelper(p.Outer.Block()), "unmarshal:key-tested", p.Inner.Pos(), "an entry is stored only after its key was tested", "dsstate.Unmarshal stores entries without testing that they have a key: any msgpack map decodes into an entry with an empty key, so input that is no snapshot is accepted and an empty value lands on the namespace key itself (PinGet(cid.Undef) then finds a pin of type 0)")
 	}
+}
+
+// ---------------------------------------------------------------------
+// error discipline, one rule per group of packages (each listed under the
+// properties whose code lives there): no function returns a literal nil
+// error on a path where a callee's error was tested non-nil, except the
+// reviewed sites below (confirmed by reading; one line of reason each).
+
+var swallowReviewed = map[string]string{
+	"(*" + ModPath + "/ipfsconn/ipfshttp.Connector).PinLsCid":            "an IPFS error answer to pin/ls means `not pinned`; transport failures (no body) are returned (R16.5)",
+	"(*" + ModPath + "/ipfsconn/ipfshttp.Connector).RepoGC":              "io.EOF ends the streamed answer",
+	"(*" + ModPath + "/ipfsconn/ipfshttp.Connector).Unpin":               "`not pinned` from the daemon is success for an unpin (R16.4)",
+	"(*" + ModPath + "/ipfsconn/ipfshttp.Connector).pinProgress":         "io.EOF ends the progress stream (R16.2)",
+	"(*" + ModPath + "/pintracker/stateless.Tracker).Track":              "a failed remote-unpin is recorded on the operation (SetError) and retried by recover",
+	"(*" + ModPath + "/pintracker/stateless.Tracker).recoverWithPinInfo": "an item that left the pinset has nothing to re-pin: its status is returned",
+	"(*" + ModPath + "/state/dsstate.State).Unmarshal":                   "io.EOF ends the serialized state",
+}
+
+type swallowGroup struct {
+	id    string
+	props []string
+	pkgs  []string // package paths relative to the module ("" = root), prefix match with "/..."
+	what  string
+}
+
+var swallowGroups = []swallowGroup{
+	{"R04.10", []string{"C04", "C10"}, []string{""}, "the cluster component"},
+	{"R16.10", []string{"C16"}, []string{"ipfsconn/..."}, "the IPFS connector"},
+	{"R05.10", []string{"C05", "C06"}, []string{"pintracker/..."}, "the pin tracker"},
+	{"R14.10", []string{"C14", "C01", "C17"}, []string{"state/...", "consensus/raft", "cmdutils", "pstoremgr"}, "state, raft, import/export and the peerstore"},
+	{"R02.9", []string{"C02"}, []string{"consensus/crdt"}, "the crdt component"},
+	{"R13.14", []string{"C13"}, []string{"adder/..."}, "the adders"},
+	{"R11.10", []string{"C11"}, []string{"api/rest/..."}, "the REST API and its client"},
+	{"R12.8", []string{"C12"}, []string{"api/ipfsproxy"}, "the proxy"},
+	{"R09.13", []string{"C09"}, []string{"monitor/..."}, "the monitor"},
+}
+
+func init() {
+	for _, g := range swallowGroups {
+		g := g
+		register(&Rule{ID: g.id, Props: g.props, Floor: 1, Title: "error discipline in " + g.what + ": no function answers a nil error on a path where it tested a callee's error non-nil, apart from the reviewed sites (end of a stream, `not pinned` on unpin, an item that left the pinset)", Run: func(c *Ctx, r *R) { rSwallow(c, r, g) }})
+	}
+}
+
+func rSwallow(c *Ctx, r *R, g swallowGroup) {
+	in := func(path string) bool {
+		rel := strings.TrimPrefix(strings.TrimPrefix(path, ModPath), "/")
+		for _, p := range g.pkgs {
+			if strings.HasSuffix(p, "/...") {
+				base := strings.TrimSuffix(p, "/...")
+				if rel == base || strings.HasPrefix(rel, base+"/") {
+					return true
+				}
+			} else if rel == p {
+				return true
+			}
+		}
+		return false
+	}
+	n := 0
+	var fns []*ssa.Function
+	c.P.RepoFuncs(func(f *ssa.Function) {
+		if f.Pkg != nil && in(f.Pkg.Pkg.Path()) {
+			fns = append(fns, f)
+		}
+	})
+	sort.Slice(fns, func(i, j int) bool { return fns[i].Pos() < fns[j].Pos() })
+	for _, f := range fns {
+		bad, cnt := nilUnderTestedError(f)
+		if cnt == 0 {
+			continue
+		}
+		n++
+		if len(bad) == 0 {
+			continue
+		}
+		name := f.String()
+		// a piece of a reviewed function (a helper with that one caller)
+		// is covered by the same review
+		for h, depth := f, 0; depth < 3; depth++ {
+			if _, ok := swallowReviewed[name]; ok {
+				break
+			}
+			site := singleCallSite[h]
+			if site == nil {
+				break
+			}
+			h = site.Parent()
+			for h.Parent() != nil {
+				h = h.Parent()
+			}
+			if _, ok := swallowReviewed[h.String()]; ok {
+				name = h.String()
+			}
+		}
+		if why, ok := swallowReviewed[name]; ok {
+			r.OK("no-swallowed-error:"+name, bad[0].Pos, "reviewed: %s", why)
+			continue
+		}
+		r.Bad("no-swallowed-error:"+name, bad[0].Pos, "%s returns a nil error on a path where it tested a callee's error non-nil: the failure is reported as success to the caller (not one of the reviewed end-of-stream / already-in-that-state cases)", f.Name())
+	}
+	if n == 0 {
+		r.Und("no-swallowed-error", token.NoPos, "no function returning an error found in %v", g.pkgs)
+	} else {
+		r.OK("no-swallowed-error", token.NoPos, "%d functions returning an error examined", n)
+	}
+}
+
+// ---------------------------------------------------------------------
+// round 8
+
+func init() {
+	register(&Rule{ID: "R01.10", Props: []string{"C01", "C02", "C14"}, Floor: 1, Title: "a pin is stored under its whole CID: the datastore key is built from the CID's bytes (version, codec and hash), never from the multihash alone - two CIDs over one hash are two pins", Run: r0110})
+	register(&Rule{ID: "R08.9", Props: []string{"C08", "C10", "C14"}, Floor: 2, Title: "slices are built soundly (repository-wide): a loop that accumulates with append appends onto its own accumulator, and nothing appends onto a slice made with a non-zero length (the result would start with that many zero entries)", Run: r089})
+	register(&Rule{ID: "R08.10", Props: []string{"C08", "C11"}, Floor: 1, Title: "a callback that decodes records decodes each into a record of its own: no decode call inside a function literal targets a variable of the enclosing function (every invocation would overwrite the previous record, and fields a record omits keep the last one's values)", Run: r0810})
+}
+
+func r0110(c *Ctx, r *R) {
+	f := c.fn(r, "state/dsstate", "State.key")
+	if f == nil {
+		return
+	}
+	bytesCalls, hashCalls := 0, 0
+	for g := range ssaClosure(f) {
+		for _, ci := range callsIn(g) {
+			switch {
+			case nameMatches(callName(ci.Common()), "go-cid.Cid).Bytes", "go-cid.Cid).KeyString", "go-cid.Cid).String"):
+				bytesCalls++
+			case nameMatches(callName(ci.Common()), "go-cid.Cid).Hash"):
+				hashCalls++
+			}
+		}
+	}
+	r.Check(bytesCalls > 0 && hashCalls == 0, "state-key:whole-cid", f.Pos(), "the state's key is built from the whole CID", "the state's datastore key is built from the CID's multihash (or not from its bytes): a CIDv0 and the CIDv1 over the same hash, or dag-pb and raw over one hash, share one slot - pinning the second overwrites the first and unpinning one removes the other")
+}
+
+func r089(c *Ctx, r *R) {
+	nAcc, nMake := 0, 0
+	var fns []*ssa.Function
+	c.P.RepoFuncs(func(f *ssa.Function) {
+		if f.Pkg != nil && !strings.HasPrefix(f.Pkg.Pkg.Path(), ModPath+"/test") {
+			fns = append(fns, f)
+		}
+	})
+	sort.Slice(fns, func(i, j int) bool { return fns[i].Pos() < fns[j].Pos() })
+	for _, f := range fns {
+		for _, ci := range callsIn(f) {
+			call, ok := ci.(*ssa.Call)
+			if !ok || callName(call.Common()) != "builtin.append" {
+				continue
+			}
+			base := call.Common().Args[0]
+			// (a) the accumulator of a loop: the append's result flows
+			// into a phi of the loop header over the back edge
+			if h := loopHeaderOf(call.Block()); h != nil {
+				for _, in := range h.Instrs {
+					phi, ok := in.(*ssa.Phi)
+					if !ok {
+						break
+					}
+					fromBody := false
+					for i, e := range phi.Edges {
+						if e == ssa.Value(call) && (h.Preds[i] == call.Block() || inNaturalLoop(h.Preds[i], h)) {
+							fromBody = true
+						}
+					}
+					if !fromBody {
+						continue
+					}
+					nAcc++
+					own := false
+					seen := map[ssa.Value]bool{}
+					var walk func(v ssa.Value, d int)
+					walk = func(v ssa.Value, d int) {
+						if v == nil || seen[v] || d > 6 {
+							return
+						}
+						seen[v] = true
+						if v == ssa.Value(phi) {
+							own = true
+							return
+						}
+						switch x := v.(type) {
+						case *ssa.Phi:
+							for _, e := range x.Edges {
+								walk(e, d+1)
+							}
+						case *ssa.Slice:
+							walk(x.X, d+1)
+						case *ssa.Call:
+							if callName(x.Common()) == "builtin.append" {
+								walk(x.Common().Args[0], d+1)
+							}
+						}
+					}
+					walk(base, 0)
+					if !own && len(call.Common().Args) == 2 {
+						// prepending: append([]T{x}, acc...)
+						walk(call.Common().Args[1], 0)
+					}
+					r.Check(own, "append-own-accumulator:"+f.String(), call.Pos(), "the loop appends onto its own accumulator", f.Name()+" assigns, in a loop, the result of an append onto another slice to its accumulator: every iteration starts again from that other slice and only the last element survives")
+				}
+			}
+			// (b) onto a slice made with a non-zero length
+			seen := map[ssa.Value]bool{}
+			var mk *ssa.MakeSlice
+			var find func(v ssa.Value, d int)
+			find = func(v ssa.Value, d int) {
+				if v == nil || seen[v] || d > 6 || mk != nil {
+					return
+				}
+				seen[v] = true
+				switch x := v.(type) {
+				case *ssa.MakeSlice:
+					mk = x
+				case *ssa.Phi:
+					for _, e := range x.Edges {
+						find(e, d+1)
+					}
+				case *ssa.Call:
+					if callName(x.Common()) == "builtin.append" {
+						// an earlier append: the length question was
+						// that call's
+						return
+					}
+				}
+			}
+			find(base, 0)
+			if mk != nil {
+				nMake++
+				k, isK := constInt(mk.Len)
+				r.Check(isK && k == 0, "append-onto-empty:"+f.String(), call.Pos(), "appends start from an empty slice (make with length 0)", f.Name()+" appends onto a slice it made with a non-zero length: the result begins with that many zero entries (empty byte strings, nil pointers) in front of the appended ones")
+			}
+		}
+	}
+	if nAcc == 0 || nMake == 0 {
+		r.Und("append-soundness", token.NoPos, "found %d loop accumulators and %d appends onto made slices: shape not recognised", nAcc, nMake)
+	}
+}
+
+func r0810(c *Ctx, r *R) {
+	decoders := []string{"encoding/json.Decoder).Decode", "codec.Decoder).Decode", "=encoding/json.Unmarshal", "msgpack.Decoder).Decode"}
+	n := 0
+	var fns []*ssa.Function
+	c.P.RepoFuncs(func(f *ssa.Function) {
+		if f.Parent() != nil && f.Pkg != nil && !strings.HasPrefix(f.Pkg.Pkg.Path(), ModPath+"/test") {
+			fns = append(fns, f)
+		}
+	})
+	sort.Slice(fns, func(i, j int) bool { return fns[i].Pos() < fns[j].Pos() })
+	for _, f := range fns {
+		for _, ci := range findCalls(f, false, decoders...) {
+			args := ci.Common().Args
+			var target ssa.Value
+			for i := len(args) - 1; i >= 0; i-- {
+				a := args[i]
+				if mi, ok := a.(*ssa.MakeInterface); ok {
+					a = mi.X
+				}
+				if _, ok := a.Type().Underlying().(*types.Pointer); ok {
+					target = a
+					break
+				}
+			}
+			if target == nil {
+				continue
+			}
+			n++
+			_, captured := target.(*ssa.FreeVar)
+			// a closure that runs once (called in place, or handed to a
+			// function that is not a per-record callback) may fill a
+			// result variable of its parent: only closures used as the
+			// handler of a stream are this rule's business
+			streaming := false
+			if captured {
+				for _, ref := range *f.Referrers() {
+					_ = ref
+				}
+				streaming = closureIsStreamHandler(f)
+			}
+			r.Check(!(captured && streaming), "callback-decodes-fresh:"+f.String(), ci.Pos(), "the callback decodes into a record of its own (or runs once)", f.Name()+" is called once per record of a stream and decodes each into a variable of the enclosing function: every record overwrites the one before, fields a record omits keep the previous record's values, and a consumer that keeps the pointers sees the last record N times")
+		}
+	}
+	if n == 0 {
+		r.Und("callback-decodes-fresh", token.NoPos, "no function literal decodes anything: shape not recognised")
+	}
+}
+
+// closureIsStreamHandler: the function literal is handed (as a value) to a
+// call whose callee - directly, or after passing it on - invokes that
+// parameter inside a loop.
+func closureIsStreamHandler(f *ssa.Function) bool {
+	parent := f.Parent()
+	if parent == nil {
+		return false
+	}
+	// prmCalledInLoop: parameter prm of h is invoked in a loop of h, or
+	// handed on to a function that does
+	var prmCalledInLoop func(h *ssa.Function, prm *ssa.Parameter, depth int) bool
+	prmCalledInLoop = func(h *ssa.Function, prm *ssa.Parameter, depth int) bool {
+		if h == nil || h.Blocks == nil || depth > 3 {
+			return false
+		}
+		for _, cc := range callsIn(h) {
+			if cc.Common().Value == ssa.Value(prm) && !cc.Common().IsInvoke() && loopHeaderOf(cc.Block()) != nil {
+				return true
+			}
+			if g := cc.Common().StaticCallee(); g != nil && g != h {
+				for ai, a := range cc.Common().Args {
+					if a == ssa.Value(prm) && ai < len(g.Params) && prmCalledInLoop(g, g.Params[ai], depth+1) {
+						return true
+					}
+				}
+			}
+		}
+		return false
+	}
+	handler := false
+	instrs(parent, func(i ssa.Instruction) {
+		mc, ok := i.(*ssa.MakeClosure)
+		if !ok || mc.Fn != ssa.Value(f) {
+			return
+		}
+		// the closure value, also converted to a named function type
+		vals := []ssa.Value{mc}
+		for _, ref := range *mc.Referrers() {
+			if ct, ok := ref.(*ssa.ChangeType); ok {
+				vals = append(vals, ct)
+			}
+		}
+		for _, v := range vals {
+			for _, ref := range *v.Referrers() {
+				ci, ok := ref.(ssa.CallInstruction)
+				if !ok {
+					continue
+				}
+				h := ci.Common().StaticCallee()
+				if h == nil || h.Blocks == nil {
+					continue
+				}
+				for ai, a := range ci.Common().Args {
+					if a == v && ai < len(h.Params) && prmCalledInLoop(h, h.Params[ai], 0) {
+						handler = true
+					}
+				}
+			}
+		}
+	})
+	return handler
 }
